@@ -74,6 +74,10 @@ pub static POOLS: &[Pool] = &[
             "v", "f",
         ],
     },
+    // lower-case letters that differ as characters (and in UTF-8 length) but fold together under (?i)
+    Pool { name: "fold-s", syms: &["s", "ſ", "a", "b"] },
+    Pool { name: "fold-sigma", syms: &["σ", "ς", "α", "β"] },
+    Pool { name: "fold-misc", syms: &["k", "\u{212a}", "µ", "μ", "β", "ϐ", "a"] },
     // literal text that is spelled like grex's internal class tokens, next to characters that
     // are really converted to those tokens (only meaningful together with class options)
     Pool { name: "lookalike", syms: &["\\d", "1", "\\w", "a", "\\s", " ", "\\D", "-", "\\", "d"] },
